@@ -779,7 +779,108 @@ class Gen:
                 else:
                     raise TranslateError('%s: statement %s' % (fn, k))
             skel[fn] = steps
+        self.run_tables = self.run_programmes(kinds, uses, helpers, rw)
         return kinds, classes, uses, helpers, rw, skel
+
+    # ---- control structure as executable programmes of RunLang.lean
+    def run_programmes(self, kinds, uses, helpers, rw):
+        ldir = {'fwd': '.fwd', 'bwd': '.bwd'}
+        progs = {}
+        for fn, (d, callee, args) in helpers.items():
+            if d not in ldir:
+                raise TranslateError('%s: loop over the entry range is neither beg_..end_ nor end_..beg_' % fn)
+            prim = {'Copy': '.copy', 'Distr': '.distr', 'Collect': '.collect'}.get(callee)
+            if prim is None:
+                raise TranslateError('%s: calls %s per entry (expected Copy / Distr / Collect)' % (fn, callee))
+            if len(args) != 2 or any(a not in ('first', 'second') for a in args):
+                raise TranslateError('%s: arguments of the per-entry call are %s' % (fn, args))
+            progs[fn] = '⟨%s, %s, .%s, .%s⟩' % (ldir[d], prim, args[0], args[1])
+        link_progs = []
+        for (cls, m), h in sorted(uses.items()):
+            if h not in progs:
+                raise TranslateError('%s::%s calls %s, which is not one of the translated range helpers' % (cls, m, h))
+            link_progs.append('(%s, %s, %s)' % (lstr(cls), lstr(m), progs[h]))
+        for fn in ('Distr', 'Collect'):
+            if rw[fn][0] != ['nr1', 'nr2']:
+                raise TranslateError('%s: parameters are %s' % (fn, rw[fn][0]))
+        writes = '⟨.%s, .%s⟩' % (rw['Distr'][1], rw['Collect'][1])
+        # BasicIndivEntryLink: macro-generated loops
+        indiv = []
+        for k in kinds:
+            for d in ('Presolve', 'Postsolve'):
+                ms = self.methods('mp::pre::BasicIndivEntryLink', d + k)
+                if len(ms) != 1:
+                    raise TranslateError('BasicIndivEntryLink::%s%s: %d definitions' % (d, k, len(ms)))
+                st = self.body(ms[0]).get('inner', [])
+                if len(st) != 1 or st[0]['kind'] != 'ForStmt':
+                    raise TranslateError('BasicIndivEntryLink::%s%s: body is not a single for loop' % (d, k))
+                init_members = [x.get('name') for x in find(st[0]['inner'][0], lambda n: n.get('kind') == 'MemberExpr')]
+                cond_members = [x.get('name') for x in find(st[0]['inner'][2] or {}, lambda n: n.get('kind') == 'MemberExpr')]
+                direction = 'fwd' if (init_members[:1], cond_members[:1]) == (['beg_'], ['end_']) else ('bwd' if (init_members[:1], cond_members[:1]) == (['end_'], ['beg_']) else None)
+                if direction is None:
+                    raise TranslateError('BasicIndivEntryLink::%s%s: loop bounds %s / %s' % (d, k, init_members, cond_members))
+                body = st[0]['inner'][-1]
+                if body.get('kind') != 'CallExpr':
+                    raise TranslateError('BasicIndivEntryLink::%s%s: loop body is %s' % (d, k, body.get('kind')))
+                callee = body['inner'][0]
+                if callee.get('kind') != 'CXXDependentScopeMemberExpr' or not find(callee, lambda n: n.get('kind') == 'CXXThisExpr'):
+                    raise TranslateError('BasicIndivEntryLink::%s%s: per-entry call is not a method of the derived class' % (d, k))
+                indiv.append('(%s, %s, %s)' % (lstr(d + k), ldir[direction], lstr(callee['member'])))
+        # RunPresolve / RunPostsolve
+        runs = {}
+        for fn in ('RunPresolve', 'RunPostsolve'):
+            ms = [m for d in self.dump('mp::pre::ValuePresolverImpl') for m in find(d, lambda n: n.get('kind') == 'CXXMethodDecl' and n.get('name') == fn and any(c.get('kind') == 'CompoundStmt' for c in n.get('inner', [])))]
+            params = [p_['name'] for p_ in ms[0]['inner'] if p_.get('kind') == 'ParmVarDecl']
+            if params != ['fn', 'mv']:
+                raise TranslateError('%s: parameters %s' % (fn, params))
+            stmts = []
+            for s_ in self.body(ms[0]).get('inner', []):
+                k = s_['kind']
+                if k in ('CallExpr', 'CXXMemberCallExpr'):
+                    nm = [x['name'] for x in find(s_, lambda n: n.get('kind') == 'MemberExpr')]
+                    if nm[:1] != ['CleanUpValueNodes'] or len(s_['inner']) != 1:
+                        raise TranslateError('%s: call of %s' % (fn, nm[:1]))
+                    stmts.append('.cleanNodes')
+                elif k in ('BinaryOperator', 'CXXOperatorCallExpr'):
+                    nm = [x['name'] for x in find(s_, lambda n: n.get('kind') == 'MemberExpr')]
+                    pv = [x['referencedDecl']['name'] for x in find(s_, lambda n: n.get('kind') == 'DeclRefExpr' and n['referencedDecl'].get('kind') == 'ParmVarDecl')]
+                    if nm not in (['src_'], ['dest_']) or pv != ['mv']:
+                        raise TranslateError('%s: assignment %s := %s' % (fn, nm, pv))
+                    stmts.append('.load .%s' % nm[0][:-1])
+                elif k in ('CXXForRangeStmt', 'ForStmt'):
+                    toks = json.dumps(s_)
+                    members = [x['name'] for x in find(s_, lambda n: n.get('kind') == 'MemberExpr')]
+                    if 'brl_' not in members:
+                        raise TranslateError('%s: loop is not over brl_' % fn)
+                    body = s_['inner'][-1]
+                    calls = find(body, lambda n: n.get('kind') in ('CallExpr', 'CXXMemberCallExpr'))
+                    ptrmem = find(body, lambda n: n.get('kind') == 'BinaryOperator' and n.get('opcode') in ('.*', '->*'))
+                    fnref = find(body, lambda n: n.get('kind') == 'DeclRefExpr' and n['referencedDecl'].get('name') == 'fn')
+                    bm = [x['name'] for x in find(body, lambda n: n.get('kind') == 'MemberExpr')]
+                    nested = find(body, lambda n: n.get('kind') in ('IfStmt', 'ForStmt', 'WhileStmt', 'CXXForRangeStmt', 'ContinueStmt', 'BreakStmt', 'ReturnStmt'))
+                    if len(calls) != 1 or len(ptrmem) != 1 or len(fnref) != 1 or sorted(bm) != ['b_', 'ir_'] or nested:
+                        raise TranslateError('%s: loop body is not the single call (br.b_.*fn)(br.ir_)' % fn)
+                    if k == 'CXXForRangeStmt':
+                        stmts.append('.loopRanges .fwd')
+                    else:
+                        hdr_members = [x['name'] for x in find(s_['inner'][0], lambda n: n.get('kind') == 'MemberExpr')] + \
+                                      [x['name'] for x in find(s_['inner'][2] or {}, lambda n: n.get('kind') == 'MemberExpr')]
+                        inc = json.dumps(s_['inner'][3] or {})
+                        if 'rbegin' in hdr_members and 'rend' in hdr_members and ('"++"' in inc or 'operator++' in inc) and 'operator--' not in inc:
+                            stmts.append('.loopRanges .bwd')
+                        elif 'begin' in hdr_members and 'end' in hdr_members and ('"++"' in inc or 'operator++' in inc) and 'operator--' not in inc:
+                            stmts.append('.loopRanges .fwd')
+                        else:
+                            raise TranslateError('%s: loop header %s' % (fn, hdr_members))
+                elif k == 'ReturnStmt':
+                    nm = [x['name'] for x in find(s_, lambda n: n.get('kind') == 'MemberExpr')]
+                    if nm not in (['src_'], ['dest_']):
+                        raise TranslateError('%s: returns %s' % (fn, nm))
+                    stmts.append('.ret .%s' % nm[0][:-1])
+                else:
+                    raise TranslateError('%s: statement %s' % (fn, k))
+            runs[fn] = stmts
+        return runs, link_progs, writes, indiv
 
 
 def lstr(s):
@@ -795,7 +896,7 @@ def main(repo, out, work):
     iisenum = dict(g.enums)
     # BasicStatus enumerators are used by ReverseBasisLowUpp / PresolveBasisEntry, IISStatus by the IIS switch
     L = ['/- GENERATED by translators/gen_valcvt.py from include/mp/valcvt*.h and include/mp/flat/redef/std/range_con.h — do not edit. -/',
-         'import MpVerif.C04.R2SLang', 'import MpVerif.C04.RegLang', 'namespace MpVerif.Gen.ValCvt', 'open MpVerif.C04', '']
+         'import MpVerif.C04.R2SLang', 'import MpVerif.C04.RegLang', 'import MpVerif.C04.RunLang', 'namespace MpVerif.Gen.ValCvt', 'open MpVerif.C04', '']
     g.enums = dict(basic)
     sn = g.set_num()
     for tag in ('Int', 'Dbl'):
@@ -860,6 +961,15 @@ def main(repo, out, work):
     L.append('def m2mWrites : List (String × String) := [%s]' % ', '.join('(%s, %s)' % (lstr(fn), lstr(w)) for fn, (ps, w, _) in sorted(rw.items())))
     for fn in ('RunPresolve', 'RunPostsolve'):
         L.append('def %sSkeleton : List String := [%s]' % (fn[0].lower() + fn[1:], ', '.join(lstr(s) for s in skel[fn])))
+    runs, link_progs, writes, indiv = g.run_tables
+    L.append('/-- the control structure as executable programmes (`RunLang.lean`): `RunPresolve` / `RunPostsolve`, for every method of `CopyLink` /')
+    L.append('    `Many2ManyLink` the programme of the range helper it calls, the written parameter of `Distr` / `Collect`, the loops of `BasicIndivEntryLink` -/')
+    L.append('def runTables : RunTables where')
+    L.append('  runPre := [%s]' % ', '.join(runs['RunPresolve']))
+    L.append('  runPost := [%s]' % ', '.join(runs['RunPostsolve']))
+    L.append('  linkProgs := [%s]' % ',\n    '.join(link_progs))
+    L.append('  writes := %s' % writes)
+    L.append('  indivLoops := [%s]' % ',\n    '.join(indiv))
     L += ['', 'end MpVerif.Gen.ValCvt', '']
     text = '\n'.join(L)
     if not os.path.exists(out) or open(out).read() != text:
